@@ -5,6 +5,7 @@
 package c08
 
 import (
+	"bytes"
 	"encoding/json"
 	"fmt"
 	"strings"
@@ -50,7 +51,7 @@ type meth struct {
 
 var methods = map[int][]meth{
 	stdh.IOT:  {{"transform_io", true, true, true, true}, {"set_quirk", false, false, false, true}},
-	stdh.IMG:  {{"decode_image_config", true, true, true, true}, {"decode_frame_config", true, true, true, true}, {"decode_frame", true, true, true, true}, {"restart_frame", false, false, false, true}, {"tell_me_more", true, true, true, true}, {"set_quirk", false, false, false, true}},
+	stdh.IMG:  {{"decode_image_config", true, true, true, true}, {"decode_frame_config", true, true, true, true}, {"decode_frame", true, true, true, true}, {"restart_frame", false, false, false, true}, {"tell_me_more", true, true, true, true}, {"set_quirk", false, false, false, true}, {"set_report_metadata", false, false, false, false}},
 	stdh.TOK:  {{"decode_tokens", true, true, true, true}, {"set_quirk", false, false, false, true}},
 	stdh.H32:  {{"set_quirk", false, false, false, true}},
 	stdh.H64:  {{"set_quirk", false, false, false, true}},
@@ -59,6 +60,12 @@ var methods = map[int][]meth{
 
 func genCase(t *rapid.T, env *stdrun.Env) Case {
 	k := env.Kinds[rapid.IntRange(0, len(env.Kinds)-1).Draw(t, "kind")]
+	if rapid.IntRange(0, 7).Draw(t, "metakind") == 0 {
+		// a history about metadata reports: one of the decoders that have metadata to report
+		if mk, ok := env.Kind(rapid.SampledFrom([]string{"gif.decoder", "png.decoder", "gif.decoder", "png.decoder", "jpeg.decoder", "webp.decoder"}).Draw(t, "metapkg")); ok {
+			k = mk
+		}
+	}
 	c := Case{Kind: k.Name}
 	corp := stdgen.LoadCorpus(ev.RepoRoot())
 	files := corp.Small(k.Pkg(), 8<<10)
@@ -74,12 +81,43 @@ func genCase(t *rapid.T, env *stdrun.Env) Case {
 		c.Payload, c.Source = rapid.SliceOfN(rapid.Byte(), 0, 200).Draw(t, "raw"), "raw-bytes"
 	}
 	ms := methods[k.Iface]
+	// image decoders: a third of the histories ask for metadata reports on a file that carries metadata, so that
+	// decode_image_config stops with "@base: metadata reported" before the configuration is complete
+	wantMeta := k.Iface == stdh.IMG && rapid.IntRange(0, 2).Draw(t, "meta") > 0
+	if wantMeta {
+		var withMeta []stdgen.File
+		for _, f := range files {
+			for _, mark := range []string{"iCCP", "eXIf", "gAMA", "cHRM", "sRGB", "tEXt", "XMP DataXMP", "ICCRGBG1012"} {
+				if bytes.Contains(f.Data, []byte(mark)) {
+					withMeta = append(withMeta, f)
+					break
+				}
+			}
+		}
+		if len(withMeta) > 0 {
+			f := withMeta[rapid.IntRange(0, len(withMeta)-1).Draw(t, "metafile")]
+			c.Payload, c.Source = f.Data, "corpus:"+f.Name
+		}
+	}
 	n := rapid.IntRange(3, 40).Draw(t, "nsteps")
 	// most histories start with a good initialize so that deeper states are reached
 	if rapid.IntRange(0, 5).Draw(t, "startinit") > 0 {
 		c.Steps = append(c.Steps, Step{Op: "init", Prefill: rapid.SampledFrom([]uint8{0, 0xA5, stdh.PrefillRandom}).Draw(t, "pf0")})
 		c.Steps = append(c.Steps, Step{Op: "feed", N: uint32(rapid.IntRange(0, len(c.Payload)).Draw(t, "n0")), Close: rapid.Bool().Draw(t, "close0")})
 		c.Steps = append(c.Steps, Step{Op: "window", N: uint32(rapid.SampledFrom([]int{0, 1, 64, 4096, 70000}).Draw(t, "w0"))})
+		if wantMeta {
+			for fc := uint8(0); fc < 8; fc++ {
+				if fc < 3 || rapid.Bool().Draw(t, "fourcc-on") {
+					c.Steps = append(c.Steps, Step{Op: "call", Method: 6, Variant: fc})
+				}
+			}
+			if rapid.IntRange(0, 3).Draw(t, "feedall") > 0 {
+				c.Steps = append(c.Steps, Step{Op: "feed", N: uint32(len(c.Payload)), Close: rapid.Bool().Draw(t, "closeall")})
+				if rapid.IntRange(0, 3).Draw(t, "dicnow") > 0 {
+					c.Steps = append(c.Steps, Step{Op: "call", Method: 0})
+				}
+			}
+		}
 	} else if rapid.Bool().Draw(t, "zeromem") {
 		// an object that was never initialised lives in memory we control: allocate it through a failing initialize
 		c.Steps = append(c.Steps, Step{Op: "init", Delta: 1, Prefill: rapid.SampledFrom([]uint8{0, 0xA5}).Draw(t, "pfz")})
@@ -114,6 +152,14 @@ func genCase(t *rapid.T, env *stdrun.Env) Case {
 			s := Step{Op: "call", Method: uint8(rapid.IntRange(0, len(ms)-1).Draw(t, "method"))}
 			if rapid.IntRange(0, 4).Draw(t, "odd") == 0 {
 				s.Variant = rapid.SampledFrom([]uint8{1, 2, 3, 4, 8}).Draw(t, "variant")
+			}
+			switch ms[s.Method].name {
+			case "set_report_metadata": // variant&7 selects the FourCC (ICCP, XMP, EXIF, CHRM, GAMA, KVP, SRGB, BGCL)
+				s.Variant = uint8(rapid.IntRange(0, 7).Draw(t, "fourcc"))
+			case "restart_frame": // variant&16: a non-zero io_position (some decoders reject zero as a bad argument)
+				if rapid.Bool().Draw(t, "rfpos") {
+					s.Variant |= 16
+				}
 			}
 			c.Steps = append(c.Steps, s)
 		}
@@ -166,14 +212,14 @@ func checkCase(env *stdrun.Env, c Case) (msg string, nontrivial bool, classes []
 		return fmt.Sprintf("%s (%s): I/O contract broken during the history: %v", c.Kind, c.Source, resp.Violations), false, nil
 	}
 	// ---- reference model
-	state := stRaw      // magic: raw (never initialised / garbage), ok, disabled
-	memZero := false    // the object memory is known to be all zero (magic == 0)
-	active := -1        // suspended coroutine (method index) or -1
-	dicDone := false    // image decoders: decode_image_config returned OK since the last initialize
-	imgCalled := false  // image decoders: some DIC/DFC/DF/tell_me_more call was made since the last initialize
+	state := stRaw     // magic: raw (never initialised / garbage), ok, disabled
+	memZero := false   // the object memory is known to be all zero (magic == 0)
+	active := -1       // suspended coroutine (method index) or -1
+	dicDone := false   // image decoders: decode_image_config returned OK since the last initialize
+	imgCalled := false // image decoders: the image configuration may have been decoded since the last initialize (DIC returned ok, or DFC/DF - which call DIC implicitly - were called)
 	haveObj := false
 	ii, ci := 0, 0
-	sawProtoErr, afterProto, interleaved, outOfOrder := false, false, false, false
+	sawProtoErr, afterProto, interleaved, outOfOrder, metaReported := false, false, false, false, false
 	for si, s := range c.Steps {
 		where := func() string { return fmt.Sprintf("%s step %d %+v", c.Kind, si, s) }
 		switch s.Op {
@@ -225,6 +271,9 @@ func checkCase(env *stdrun.Env, c Case) (msg string, nontrivial bool, classes []
 			got := resp.Raw[ci].Status
 			ci++
 			m := ms[s.Method]
+			if !m.statusReturning {
+				continue
+			}
 			if sawProtoErr {
 				afterProto = true
 			}
@@ -278,8 +327,14 @@ func checkCase(env *stdrun.Env, c Case) (msg string, nontrivial bool, classes []
 				if m.name == "decode_image_config" && got == "" {
 					dicDone = true
 				}
-				if m.coro {
-					imgCalled = true // DFC/DF call the earlier stages implicitly, so the sequence may have advanced
+				// the configuration is decoded for certain only when DIC returned ok; DFC/DF call DIC implicitly, so after
+				// them it may be; a DIC that suspended or returned a note ("@metadata reported") and tell_me_more have not
+				// completed it (doc/std/image-decoders-call-sequence.md: restart_frame needs the state reached by DIC)
+				if (m.name == "decode_image_config" && got == "") || m.name == "decode_frame_config" || m.name == "decode_frame" {
+					imgCalled = true
+				}
+				if m.name == "decode_image_config" && got == "@base: metadata reported" {
+					metaReported = true
 				}
 			}
 			if m.coro {
@@ -303,6 +358,12 @@ func checkCase(env *stdrun.Env, c Case) (msg string, nontrivial bool, classes []
 	}
 	if outOfOrder {
 		classes = append(classes, "out-of-order-image-call")
+	}
+	if metaReported {
+		classes = append(classes, "metadata-reported")
+		if outOfOrder {
+			classes = append(classes, "out-of-order-image-call-with-metadata-pending-or-reported")
+		}
 	}
 	if resp.NPure > 0 || true {
 		classes = append(classes, "history")
